@@ -33,9 +33,37 @@ def _prep(spec, freeze=True):
     return _subst(spec["entries"], pairs), h
 
 
-def _case():
-    s = z3.Solver()
+def _case(solver=None):
+    s = solver or z3.Solver()
     return valueview.Case(s, {"queries": 0, "cases": 0, "atoms": 0})
+
+
+def _by_cases(body, max_depth=8):
+    """Runs body(case) -> result dict; `If` terms in the step (e.g. a floor max(Kz, eps)) are
+    handled by case analysis on their conditions.  A refutation in any feasible case refutes."""
+    s = z3.Solver()
+    s.set("timeout", 5000)
+
+    def rec(depth):
+        try:
+            return body(_case(s))
+        except valueview.NeedSplit as ns:
+            if depth >= max_depth:
+                return {"result": "unknown", "reason": "too many case distinctions in the step"}
+            worst = {"result": "unsat"}
+            for c in (ns.cond, z3.Not(ns.cond)):
+                s.push()
+                s.add(c)
+                feasible = s.check() != z3.unsat
+                r = rec(depth + 1) if feasible else {"result": "unsat"}
+                s.pop()
+                if r["result"] == "sat":
+                    r.setdefault("value_failure", {})["case"] = str(c)[:200]
+                    return r
+                if r["result"] != "unsat":
+                    worst = r
+            return worst
+    return rec(0)
 
 
 def _coeffs(case, term, hterm):
@@ -79,8 +107,11 @@ def _spec_entries(spec):
 
 def check_order(spec, order, e):
     sym._ENGINE[0] = sym._ENGINE[0] or _Dummy()
+    return _by_cases(lambda case: _check_order(case, spec, order, e))
+
+
+def _check_order(case, spec, order, e):
     entries, h = _prep(spec, freeze=True)
-    case = _case()
     want = _spec_entries(spec)[order][e]
     got = entries[e]
     bad = []
@@ -107,8 +138,11 @@ ALLOWED_NEXT = True  # sampling a profile at node i+1 (inside the layer) is tole
 
 def check_reads(spec):
     sym._ENGINE[0] = sym._ENGINE[0] or _Dummy()
+    return _by_cases(lambda case: _check_reads(case, spec))
+
+
+def _check_reads(case, spec):
     entries, h = _prep(spec, freeze=False)
-    case = _case()
     allowed_terms = [num(v).t for v in spec["here"].values()]
     if ALLOWED_NEXT:
         allowed_terms += [num(v).t for v in spec["nxt"].values()]
@@ -158,6 +192,10 @@ def check_symmetry(spec, which):
        length:    Step(lx/s, ly/s, s*h, s*K) == Step(lx, ly, h, K)
        speed:     Step(c*u, c*v, c*K) == D^-1 Step D,  D = diag(c, 1)"""
     sym._ENGINE[0] = sym._ENGINE[0] or _Dummy()
+    return _by_cases(lambda case: _check_symmetry(case, spec, which))
+
+
+def _check_symmetry(case, spec, which):
     entries, h = _prep(spec, freeze=True)
     H = {k: num(v).t for k, v in spec["here"].items()}
     lx, ly = num(spec["lx"]).t, num(spec["ly"]).t
@@ -175,7 +213,7 @@ def check_symmetry(spec, which):
     else:
         raise ValueError(which)
     other = _sub(entries, pairs)
-    case = _case()
+    case.s.add(s > 0)
     sc = Cx(Num(s, True), 0)
     want = dict(entries)
     if which == "speed":
